@@ -350,6 +350,25 @@ pub fn run(ctx: &Ctx) -> Report {
     total.extra.insert("dictionary_tokens".into(), json!(dict.len()));
     total.exhaustive_parts.push("every carrier x every token of a dictionary extracted from the code generator's sources (format placeholders such as {mdt}, emitted literals)".into());
 
+    // long strings: lengths around powers of two, a multi-byte character straddling the boundary,
+    // hostile characters at the very end (truncation, fixed-size buffers, byte/char offsets)
+    let long = run_shards(CARRIERS.len(), |ci| {
+        let mut st = Stats::new();
+        let carrier = CARRIERS[ci];
+        for len in [63usize, 64, 65, 127, 128, 129, 255, 256, 257, 1000, 3000] {
+            for (k, mb) in ["é", "日", "😀", "\"", "\\"].iter().enumerate() {
+                for shift in 0..3usize {
+                    let s = format!("{}{}{}", "a".repeat(len.saturating_sub(1 + shift)), mb, ["", "b", "~\""][(k + shift) % 3]);
+                    let v = judge(carrier, &s);
+                    st.record(&v, stable_hash(&(carrier, &s)), true, || json!({"kind": "carrier", "carrier": carrier, "string": s, "length": s.len()}));
+                }
+            }
+        }
+        st
+    });
+    total.merge(long);
+    total.exhaustive_parts.push("long strings (63..3000 bytes) with a multi-byte or hostile character straddling power-of-two offsets, per carrier".into());
+
     let cases = ctx.tier.pick(160_000u32, 1_600_000u32);
     let shards = 16;
     let dict2 = dict.clone();
@@ -362,6 +381,7 @@ pub fn run(ctx: &Ctx) -> Report {
                 3 => proptest::collection::vec(prop::sample::select(ALPHABET.to_vec()), 1..40).prop_map(|v| v.into_iter().collect::<String>()),
                 1 => "[ -~]{1,30}",
                 1 => "\\PC{1,12}",
+                1 => proptest::collection::vec(prop::sample::select(vec!['\u{301}', '\u{200b}', '\u{feff}', '\u{2028}', '\u{1b}', '\u{85}', '😀', 'e', '"', '\\', '*', ' ']), 1..8).prop_map(|v| v.into_iter().collect::<String>()),
                 1 => "[a-z*?\\[\\]\"\\\\]{1,10}",
                 1 => proptest::collection::vec(prop_oneof![prop::sample::select(dict.clone()), "[a-z\"\\\\ ]{0,3}"], 1..4).prop_map(|v| v.concat()),
             ],
